@@ -153,11 +153,25 @@ def splice(caller, callee, arg_rvalues, dest, cont, span):
     return base_b, binds
 
 
+FN_CALLS = ("std::ops::Fn::call", "std::ops::FnMut::call_mut", "std::ops::FnOnce::call_once")
+
+
 def _inline_one(caller, bi, callee):
     """Splice `callee` (raw body json) into `caller` at the call terminating block bi."""
     call = caller["blocks"][bi]["term"]
     span = call.get("span", {"s": "", "x": False})
-    entry, binds = splice(caller, callee, [{"k": "use", "op": a} for a in call["args"]], call["dest"], call["t"], span)
+    if callee["kind"] == "closure" and call["callee"] in FN_CALLS and len(call["args"]) == 2:
+        # `f(x, y)` on a closure value: the arguments travel as one tuple, the closure body takes them spread out
+        env, tup = call["args"]
+        arg_rvs = [{"k": "use", "op": env}]
+        for i in range(callee["arg_count"] - 1):
+            if tup.get("k") not in ("copy", "move"):
+                return False
+            arg_rvs.append({"k": "use", "op": {"l": tup["l"], "p": list(tup.get("p", [])) + [{"f": i, "name": str(i), "ty": ""}], "ty": "", "k": "move"}})
+        entry, binds = splice(caller, callee, arg_rvs, call["dest"], call["t"], span)
+        caller.setdefault("inlined_closures", []).append(callee["def"])
+    else:
+        entry, binds = splice(caller, callee, [{"k": "use", "op": a} for a in call["args"]], call["dest"], call["t"], span)
     # the call block now binds the parameters and jumps into the helper
     caller["blocks"][bi]["stmts"].extend(binds)
     caller["blocks"][bi]["term"] = {"k": "goto", "t": entry, "span": span, "inlined_call": callee["def"],
@@ -173,6 +187,21 @@ def inline_helpers(bodies, known):
         if b.get("promoted") is None and b["kind"] in ("fn", "method"):
             by_def.setdefault(b["def"], []).append(b)
     helpers = {d: bs[0] for d, bs in by_def.items() if len(bs) == 1 and d not in known}
+    # closures called directly by the function that defines them (`let before_stop = |i| ..; while before_stop(i)`)
+    direct = {}
+    for b in bodies:
+        if b.get("promoted") is None and b["kind"] == "closure":
+            direct[b["def"]] = b
+    called = set()
+    for b in bodies:
+        if b.get("promoted") is not None:
+            continue
+        for bl in b["blocks"]:
+            t = bl["term"]
+            if t["k"] == "call" and t["callee"] in FN_CALLS and t.get("resolved") in direct and direct[t["resolved"]].get("closure_root") == (b.get("closure_root") or b["def"]):
+                called.add(t["resolved"])
+    for d in called:
+        helpers[d] = direct[d]
     if not helpers:
         return {}
     pristine = {d: copy.deepcopy(b) for d, b in helpers.items()}
@@ -184,6 +213,8 @@ def inline_helpers(bodies, known):
         if t.get("resolved_kind") not in (None, "Item"):
             return None
         r = t.get("resolved") or t["callee"]
+        if t["callee"] in FN_CALLS:
+            return r if r in helpers and helpers[r]["kind"] == "closure" else None
         if r in helpers:
             return r
         if t["callee"] in helpers and not t.get("resolved"):
@@ -193,7 +224,7 @@ def inline_helpers(bodies, known):
     for b in bodies:
         if b.get("promoted") is not None or b["kind"] not in ("fn", "method", "closure"):
             continue
-        if b["def"] in helpers:
+        if b["def"] in helpers and b["kind"] != "closure":
             continue  # helpers are inlined into their (known) callers; nested helpers are handled through the stack below
         stack_of = {}  # block index -> tuple of helper defs this block was inlined through
         changed = True
